@@ -63,9 +63,16 @@ def coq(x):
     if x is None:
         return 'None'
     if isinstance(x, tuple):
-        return '(' + ', '.join(coq(e) for e in x) + ')'
+        # explicit constructors: Coq's parser is very slow on nested tuple / list notations
+        out = coq(x[0])
+        for e in x[1:]:
+            out = f'(pair {out} {coq(e)})'
+        return out
     if isinstance(x, list):
-        return '[' + '; '.join(coq(e) for e in x) + ']'
+        out = 'nil'
+        for e in reversed(x):
+            out = f'(cons {coq(e)} {out})'
+        return out
     raise TypeError(f'cannot emit {x!r}')
 
 
@@ -247,9 +254,11 @@ def run_case_shards(workdir, prelude, case_type, case_texts, evals, shard_size=4
         path = os.path.join(workdir, f'cases_{k}.v')
         with open(path, 'w') as f:
             f.write(prelude + '\n')
-            f.write(f'Definition cases : list ({case_type}) := [\n')
-            f.write(';\n'.join(sh))
-            f.write('\n].\n')
+            # one definition per case (fast to parse and to type-check), then the list
+            for j, t in enumerate(sh):
+                f.write(f'Definition c{j} : {case_type} := {t}.\n')
+            f.write(f'Definition cases : list ({case_type}) := ')
+            f.write(''.join(f'(cons c{j} ' for j in range(len(sh))) + 'nil' + ')' * len(sh) + '.\n')
             for name, fn in evals.items():
                 f.write(eval_block(name, f'{fn} cases'))
         files.append(path)
